@@ -14,6 +14,11 @@ deriving Repr, DecidableEq, Inhabited
 
 abbrev M := Except Err
 
+/-- Bool-valued views of results, for kernel-evaluated examples -/
+def isOkTrue : M Bool → Bool | .ok true => true | _ => false
+def isOkFalse : M Bool → Bool | .ok false => true | _ => false
+def isErr {α} : M α → Bool | .error _ => true | _ => false
+
 /-- Go `s[i]` -/
 def at' (s : Bytes) (i : Nat) : M UInt8 :=
   match s[i]? with
